@@ -514,7 +514,7 @@ Proof.
       destruct (Hfr e Ne NI' NI) as (_ & _ & E). rewrite E in Oe.
       destruct (R_own _ _ R _ _ Oe) as (r0 & xs0 & H0 & I0).
       destruct (Nat.eq_dec l' l) as [->|Nl].
-      * exfalso. apply NI'. subst old. rewrite Hl in H0. injection H0 as <- <-. exact I0.
+      * exfalso. apply NI'. subst old. rewrite Hl in H0. injection H0 as E1 E2. rewrite E2. exact I0.
       * exists r0, xs0. rewrite a_set_nth. apply Nat.eqb_neq in Nl. rewrite Nl. auto.
   - (* free *)
     intros e Oe Nr. rewrite is_root_a_set in Nr.
